@@ -29,9 +29,7 @@ func newSvEnv(symbolicParams bool) *svEnv {
 	e.bank.modules[types.RequestAccName] = nil
 	e.bank.modules[svFeeCollector] = nil
 	e.owner, e.owner2, e.p1, e.p2, e.consumer = vAddr(1), vAddr(2), vAddr(3), vAddr(4), vAddr(5)
-	e.k = Keeper{storeKey: e.key, cdc: e.cdc, accountKeeper: e.acc, bankKeeper: e.bank, blockedAddrs: e.bank.blocked,
-		feeCollectorName: svFeeCollector, authority: vAddr(9).String(), respCallbacks: map[string]types.ResponseCallback{},
-		stateCallbacks: map[string]types.StateCallback{}, moduleServices: map[string]*types.ModuleService{}}
+	e.k = NewKeeper(e.cdc, e.key, e.acc, e.bank, svFeeCollector, vAddr(9).String()) // the app's own constructor
 	p := types.DefaultParams()
 	if symbolicParams {
 		e18 := verifPow10(18)
